@@ -238,18 +238,18 @@ Proof.
 Qed.
 Print Assumptions C09_code_action_resolves.
 
-(* at every state reached by an import of distinct plain notes and any plain history *)
+(* at every state reached by an import of notes with distinct keys and any history *)
 Theorem reached_C09_offered_resolves :
   forall notes ops s (k : akind) (kg : keygen) (target : nat) (title : string),
-    plain_notes notes -> distinct_keys notes -> plain_ops ops -> reached notes ops s ->
+    distinct_keys notes -> reached notes ops s ->
     action (graph_ctx (gs_graph s)) k target = Ok (Some title) ->
     exists key tree,
       key_of (gs_graph s) target = Ok key /\ collect_key (gs_graph s) key = Ok tree /\
       (kg_has kg (draws_needed k tree target) = true ->
        exists l, handle_resolve (graph_ctx (gs_graph s)) k kg target = Ok l /\ l <> [] /\ shape_b k key l = true).
 Proof.
-  intros notes ops s k kg target title Hn Hd Ho Hr Ha.
-  destruct (reached_Inv notes ops s Hn Hd Ho Hr) as ([Hwf _] & _).
+  intros notes ops s k kg target title Hd Hr Ha.
+  destruct (reached_Inv notes ops s Hd Hr) as ([Hwf _] & _).
   destruct (C09_offered_resolves_graph (gs_graph s) k kg target title Hwf Ha) as (key & tree & Hk & Hc & _ & Hres).
   exists key, tree. repeat split; try assumption. intros Hkg. destruct (Hres Hkg) as (l & Hl & Hne & Hs & _). eauto.
 Qed.
